@@ -24,7 +24,7 @@ class C07(Check):
     pid = "C07"
     title = "Generated Python/TypeScript/Rust/Julia right-hand sides equal the model"
     rules = {
-        "G10": "(shared with C06) semantics of the function translator every back end prints from: statement / substitution / operator rules S2, S6, S9, S10, S11 of C06",
+        "G10": "(shared with C06) semantics of the function translator every back end prints from: rules S2-S7, S9-S13 of C06 (field consumption, relations, branch isolation, fall-through, substitution, tables, operators, numbers-only calls, augmented assignment)",
         "G1": "definitions before uses: assignments for derived quantities and reactions are emitted while iterating the cached "
               "dependency order (either may name the other); derivative sums come after them",
         "G2": "every referable name is defined: the emitted parameters cover plain and initial-assignment parameters (minus the free ones)",
@@ -53,7 +53,7 @@ class C07(Check):
         gen = mod.func(GEN)
         body = strip_docstring(gen.body)
         sc = Scope(gen)
-        self.borrow("C06", ("S2", "S6", "S9", "S10", "S11"), "G10")
+        self.borrow("C06", ("S2", "S3", "S4", "S5", "S6", "S7", "S9", "S10", "S11", "S12", "S13"), "G10")
         # ---- G1
         emit_loops = []
         for lp in [s for s in body if isinstance(s, ast.For)]:
